@@ -560,29 +560,44 @@ class BranchBuilder(AstVisitor[None]):
     def visit_Compare(
         self, node: ast.Compare, bb: BB, true_bb: BB, false_bb: BB
     ) -> None:
-        # Support chained comparisons, e.g. `x <= 5 < y` by compiling to `x <= 5 and
-        # 5 < y`. This way we get short-circuit evaluation for free.
+        # Support chained comparisons, e.g. `x <= f() < y`, by compiling to
+        # `x <= tmp and tmp < y` where `tmp = f()`. This way we get short-circuit
+        # evaluation while making sure that every operand is evaluated only once.
         if len(node.comparators) > 1:
-            comparators = [node.left, *node.comparators]
-            values = [
-                ast.Compare(
-                    left=left,
-                    ops=[op],
-                    comparators=[right],
-                    lineno=left.lineno,
-                    col_offset=left.col_offset,
-                    end_lineno=right.end_lineno,
-                    end_col_offset=right.end_col_offset,
-                )
-                for left, op, right in zip(
-                    comparators[:-1], node.ops, comparators[1:], strict=True
-                )
-            ]
-            conj = ast.BoolOp(op=ast.And(), values=values)
-            set_location_from(conj, node)
-            self.visit_BoolOp(conj, bb, true_bb, false_bb)
+            # Operands that are used in a comparison together with a later operand are
+            # bound to temporary variables in the order in which Python evaluates them
+            left, bb = self._bind_to_tmp(node.left, bb)
+            for i, (op, right) in enumerate(
+                zip(node.ops, node.comparators, strict=True)
+            ):
+                is_last = i == len(node.ops) - 1
+                if not is_last:
+                    right, bb = self._bind_to_tmp(right, bb)
+                compare = ast.Compare(left=left, ops=[op], comparators=[right])
+                set_location_from(compare, node)
+                # Narrow the location down to the two operands of this comparison
+                compare.lineno, compare.col_offset = left.lineno, left.col_offset
+                compare.end_lineno = right.end_lineno
+                compare.end_col_offset = right.end_col_offset
+                if is_last:
+                    self.visit(compare, bb, true_bb, false_bb)
+                else:
+                    next_bb = self.cfg.new_bb()
+                    self.visit(compare, bb, next_bb, false_bb)
+                    bb = next_bb
+                    assert isinstance(right, ast.Name)
+                    left = make_var(right.id, right)
         else:
             self.generic_visit(node, bb, true_bb, false_bb)
+
+    def _bind_to_tmp(self, expr: ast.expr, bb: BB) -> tuple[ast.Name, BB]:
+        """Builds an expression and assigns its value to a fresh temporary variable.
+
+        Returns a reference to the variable and the BB in which it is available."""
+        expr, bb = ExprBuilder.build(expr, self.cfg, bb)
+        tmp = next(tmp_vars)
+        ExprBuilder._tmp_assign(tmp, expr, bb)
+        return make_var(tmp, expr), bb
 
     def visit_IfExp(self, node: ast.IfExp, bb: BB, true_bb: BB, false_bb: BB) -> None:
         then_bb, else_bb = self.cfg.new_bb(), self.cfg.new_bb()
